@@ -46,11 +46,13 @@ func genCandidate(r vlib.Rnd) *vlib.Project {
 		case 2:
 			return vlib.SingleFile(genOrFamily(r))
 		}
-		switch r.Intn(4) {
+		switch r.Intn(5) {
 		case 0:
 			return vlib.SingleFile(genRPCFamily(r))
 		case 1:
 			return vlib.SingleFile(genRegexFamily(r))
+		case 2:
+			return vlib.SingleFile(genBodyFamily(r))
 		}
 		return vlib.SingleFile(genTagSoup(r))
 	case 6:
@@ -228,6 +230,59 @@ func genAllOfFamily(r vlib.Rnd) []byte {
 	fmt.Fprintf(&sb, "POST /a/{id}\n  Request @t%d\n  200 @t%d\n  404 [@t%d]\n", r.Intn(n), n-1, r.Intn(n))
 	if vlib.Chance(r, 1, 3) {
 		fmt.Fprintf(&sb, "  Path\n    { // {allOf: \"@t%d\"}\n      \"id\": 1\n    }\n", r.Intn(n))
+	}
+	return []byte(sb.String())
+}
+
+// genBodyFamily: requests and responses in every combination of {type / any / empty / regex / nothing on the keyword line}
+// x {Headers child or not} x {Body child or not}, in the last position of their method or followed by another directive,
+// directly or pasted from a macro.  Whatever is accepted has a body for every response and a complete request.
+func genBodyFamily(r vlib.Rnd) []byte {
+	var sb strings.Builder
+	sb.WriteString("JSIGHT 0.3\n\nTYPE @t\n  {\"a\": 1}\n\n")
+	// at most one part of the document uses a doubtful combination, so that the rest does not get the document rejected
+	doubtful := 1
+	part := func(kw, ind string) string {
+		hdr := ind + "  Headers\n" + ind + "    {\"h\": 1}\n"
+		sure := []string{
+			ind + kw + " @t\n", ind + kw + " any\n", ind + kw + " [@t]\n", ind + kw + " regex\n" + ind + "  /a+/\n",
+			ind + kw + "\n" + ind + "  {\"x\": 1}\n", ind + kw + "\n" + hdr + ind + "  Body any\n", ind + kw + "\n" + ind + "  Body @t\n",
+			ind + kw + "\n" + ind + "  Body\n" + ind + "    [1]\n" + hdr,
+		}
+		doubt := []string{
+			ind + kw + "\n" + hdr,                      // headers only
+			ind + kw + " empty\n" + hdr,                // empty + headers
+			ind + kw + " empty\n",                      // empty
+			ind + kw + " @t\n" + hdr,                   // type on the keyword line + headers
+			ind + kw + " any\n" + ind + "  Body any\n", // two bodies
+			ind + kw + "\n" + ind + "  Body empty\n",
+		}
+		if doubtful > 0 && vlib.Chance(r, 1, 3) {
+			doubtful--
+			return vlib.Pick(r, doubt)
+		}
+		return vlib.Pick(r, sure)
+	}
+	nm := 1 + r.Intn(3)
+	macro := ""
+	for m := 0; m < nm; m++ {
+		fmt.Fprintf(&sb, "%s /m%d\n", vlib.Pick(r, []string{"GET", "POST", "PUT"}), m)
+		if vlib.Chance(r, 1, 2) {
+			sb.WriteString(part("Request", "  "))
+		}
+		codes := []string{"200", "201", "404", "500"}
+		for i := 0; i < 1+r.Intn(3); i++ {
+			if macro == "" && vlib.Chance(r, 1, 5) {
+				macro = part(codes[i], "  ")
+				sb.WriteString("  PASTE @resp\n")
+				continue
+			}
+			sb.WriteString(part(codes[i], "  "))
+		}
+		sb.WriteString("\n")
+	}
+	if macro != "" {
+		sb.WriteString("MACRO @resp\n(\n" + macro + ")\n")
 	}
 	return []byte(sb.String())
 }
@@ -511,6 +566,18 @@ func c05Oracle(c *vlib.Case) *vlib.Violation {
 			}
 		}
 	}
+	// every response has a body (stated by this property; the shape check of C04 would report it as a missing field)
+	if ii := doc.Get("interactions"); ii != nil && ii.IsObj() {
+		for i, it := range ii.Vals {
+			if rs := it.Get("responses"); rs != nil && rs.IsArr() {
+				for _, resp := range rs.Vals {
+					if b := resp.Get("body"); resp.IsObj() && (b == nil || !b.IsObj()) {
+						return vlib.V("c05:refs:response-without-body", "interaction %q: response %s has no body", ii.Keys[i], resp.S("code"))
+					}
+				}
+			}
+		}
+	}
 	if vlib.JDocShape(doc) != nil {
 		return nil // C04's business
 	}
@@ -600,6 +667,10 @@ func genTagSoup(r vlib.Rnd) []byte {
 					sb.WriteString(" " + vlib.Pick(r, tags))
 				}
 				sb.WriteString("\n")
+				if vlib.Chance(r, 1, 4) {
+					// a second Tags directive of the same method / URL (it is validated, only the first one counts)
+					sb.WriteString(ind + "Tags " + vlib.Pick(r, tags) + " " + vlib.Pick(r, tags) + "\n")
+				}
 			}
 		}
 		switch r.Intn(3) {
